@@ -92,6 +92,9 @@ func (r *renderer) val(v ssa.Value) string {
 	case *ssa.Global:
 		return v.Name()
 	case *ssa.Function:
+		if v.Pkg != nil {
+			return "func:" + v.Pkg.Pkg.Name() + "." + v.Name()
+		}
 		return "func:" + v.Name()
 	case *ssa.Builtin:
 		return v.Name()
